@@ -116,6 +116,12 @@ def run_case(case):
             font = load_fully(TTFont(io.BytesIO(data), lazy=False))
             ctx = {"permutation": pname, "order": order[:12], "glyphs": len(order)}
             try:
+                if pname == "random" and case["i"] % 3 == 0:
+                    # the same font object re-ordered twice in one process (first to another order, then to the final one)
+                    first = names[:1] + list(reversed(names[1:])) if case["i"] % 2 else names[:1] + names[2:] + names[1:2]
+                    reorder_glyphs(font, first)
+                    c["two_step_reorders"] = c.get("two_step_reorders", 0) + 1
+                    ctx["via"] = "a first re-ordering of the same font object"
                 reorder_glyphs(font, order)
                 b = io.BytesIO()
                 font.save(b)
